@@ -65,6 +65,25 @@ Theorem C15_B_omits_exactly_lock_target : forall sortf root keepdir lock ents,
 Proof. exact B_omits_exactly. Qed.
 Print Assumptions C15_B_omits_exactly_lock_target.
 
+(* C15_B_omits_exactly_lock_target reads "the directory named by the lock
+   file" as: the entry whose printed path equals the lock's first line byte
+   for byte - which is what the code does (strcmp).  Read as "the directory the
+   lock file denotes" the statement is violated: a lock file that spells the
+   path differently (/r//a for /r/a - `robsd -r` stores the readlink -f path,
+   robsd-ls prints <robsddir as configured>/<name>) names a listed directory
+   and -B still lists it; the oracle that is told which directory is meant
+   rejects that output (known finding, same root cause as C16's) *)
+Theorem C15_B_omits_denoted_directory_refuted :
+  exists root keepdir lock ents name,
+    running_builddir lock = Some (root ++ 47 :: 47 :: name) /\
+    In (mkde name DT_DIR) ents /\
+    In (mkpath root name) (ls_exec root keepdir true lock ents) /\
+    spec_ok_stdout_named root keepdir (Some (mkpath root name)) (Some ents)
+      (fst (ls_main_exec root keepdir true lock (Some ents)))
+      (snd (ls_main_exec root keepdir true lock (Some ents))) = false.
+Proof. exact respelled_lock_not_omitted. Qed.
+Print Assumptions C15_B_omits_denoted_directory_refuted.
+
 (* what "the directory named by the lock file" is *)
 Theorem C15_lock_target : forall lock b,
   running_builddir lock = Some b <-> lock_names lock b.
